@@ -133,8 +133,7 @@ Section BlockInv.
       constructor; cbn [bs_edges bs_block bs_num bs_blocks bs_mblock]; try assumption.
       + intro j. unfold upd. destruct (Nat.eqb_spec j i) as [->|Hne]; [cbn [fst snd]; split; [exact Gsib|left; reflexivity]|apply A].
       + intro j. unfold upd. destruct (Nat.eqb_spec j i) as [->|Hne]; [cbn [fst snd]; intros _ Hc; exfalso; apply Hc; reflexivity|apply E].
-    - destruct (oob es i); [apply inv_fail; constructor; assumption|].
-      (* flush *)
+    - (* flush *)
       assert (Hboth : u <> -1 /\ v <> -1).
       { unfold sib in Es. destruct (Z.eqb_spec v (Z.of_nat e)) as [Ev|Ev]; [split; [exact Es|lia]|].
         destruct Eas as [Eu|Ev']; [split; [lia|exact Es]|contradiction]. }
@@ -177,7 +176,6 @@ Section BlockInv.
   Proof. intros H. unfold bs_ins. destruct (trk (echild (edge_at es e))) as [i|] eqn:Et; [|exact H].
     destruct (bs_edges s i) as [u v] eqn:Euv.
     destruct (negb ((u =? -1) || (v =? -1))); [apply inv_fail; exact H|].
-    destruct (oob es i); [apply inv_fail; exact H|].
     destruct H as [A E C N B D1 D2 D3 F].
     assert (Ai := A i). rewrite Euv in Ai. cbn [fst snd] in Ai. destruct Ai as [Au Av].
     assert (Hez : good i (Z.of_nat e)) by (right; split; [lia|rewrite Nat2Z.id; exact Et]).
@@ -209,7 +207,6 @@ Section BlockInv.
     - destruct H as [A E C N B D1 D2 D3 F]. constructor; assumption.
     - destruct (mpos m <? right).
       + apply IH. destruct (trk (mnode m)) as [i|] eqn:Et; [|exact H].
-        destruct (oob es i); [apply inv_fail; exact H|].
         destruct H as [A E C N B D1 D2 D3 F].
         constructor; cbn [bs_edges bs_block bs_num bs_blocks bs_mblock]; try assumption.
         intro m'. unfold upd. destruct (Nat.eqb_spec m' m) as [->|Hne]; [|apply F].
